@@ -6,7 +6,7 @@
     operations of the flow and of the sync-phase seeds come from a finite universe [U] that fits
     into the session buffers ([capS]) and the manager's buffer ([capM]). *)
 From Coq Require Import List Arith NArith Bool.
-From PV Require Import Model.Dedup Model.Live Proofs.Live.
+From PV Require Import Model.Dedup Model.Live Proofs.Live Oracle.C23 Proofs.LiveOracle.
 Import ListNotations.
 
 (** A manager step appends the operation to the live channel of every other session of the
@@ -96,3 +96,30 @@ Theorem C23_consumer_at_most_once :
       forall s', ~ In (ECons s' op) l1 /\ ~ In (ECons s' op) l2.
 Proof. exact consumer_at_most_once. Qed.
 Print Assumptions C23_consumer_at_most_once.
+
+(** Soundness of the oracle that judges the implementation's log (Oracle/C23.v): what it accepts
+    satisfies the ordering clauses, the per-peer clause and completeness. *)
+Theorem C23_oracle_order_sound :
+  forall l, Oracle.C23.check_seq l = true ->
+    forall l1 e l2, l = l1 ++ e :: l2 ->
+      match e with
+      | ESent s op => ~ In (ESent s op) l2
+      | EArr s op => ~ In (ESent s op) l2
+      | ECons _ op => forall s', ~ In (ECons s' op) l2
+      end.
+Proof. exact LiveOracle.check_seq_sound. Qed.
+Print Assumptions C23_oracle_order_sound.
+
+Theorem C23_oracle_peer_sound :
+  forall c l, Oracle.C23.check_peer c l = true ->
+    forall l1 s op l2 s', l = l1 ++ EArr s op :: l2 ->
+      same_topic c s s' = true -> peer_of c s = peer_of c s' -> ~ In (ESent s' op) l2.
+Proof. exact LiveOracle.check_peer_sound. Qed.
+Print Assumptions C23_oracle_peer_sound.
+
+Theorem C23_oracle_complete_sound :
+  forall c seed l, Oracle.C23.check_complete c seed l = true ->
+    forall s op s', In (EArr s op) l -> In s' (map sid c) -> same_topic c s s' = true ->
+      In (ESent s' op) l \/ In (EArr s' op) l \/ In op (seed s').
+Proof. exact LiveOracle.check_complete_sound. Qed.
+Print Assumptions C23_oracle_complete_sound.
